@@ -38,6 +38,8 @@ pub fn plan(id: &str) -> Option<Plan> {
     let p = match id {
         "C01" => Plan { id: "C01", level: "exploration", cases_quick: 40_000, cases_thorough: 1_500_000, enumerate: None, extra_families: vec![("C11", 15), ("C18", 10)], nontrivial: vec!["c01.completed_ok", "c01.completed_err"], gates: vec![("c01.completed_ok", 1000), ("c01.completed_err", 1000), ("c01.resets_checked", 1000)], wrap_runs: (0, 0),
             rule: "seeded engine simulations (random operations, broker policies incl. late/duplicated/wrong-type/unknown-id acks, closes at random steps, buffer sizes 4..8192, mid-run and final reset); non-trivial = at least one completion observed; distinct = distinct event-kind sequences", assumptions: common_assume },
+        "C02" => Plan { id: "C02", level: "exploration", cases_quick: 20_000, cases_thorough: 600_000, enumerate: None, extra_families: vec![("C16", 30), ("C17", 20), ("C07", 20)], nontrivial: vec!["c02.wire_packets"], gates: vec![("c02.wire_packets", 100_000)], wrap_runs: (0, 0),
+            rule: "engine simulations: every packet the engine emits in any history is decoded by the strict reference decoder and, for user operations, compared with what was submitted", assumptions: common_assume },
         "C04" => Plan { id: "C04", level: "fault_enumeration", cases_quick: 1_200, cases_thorough: 40_000, enumerate: Some((40, 0)), extra_families: vec![], nontrivial: vec!["c04.publishes_seen"], gates: vec![("c04.retransmissions", 200), ("c04.pubrel_resumptions", 20), ("c04.first_transmissions", 1000)], wrap_runs: (0, 0),
             rule: "for each seeded base schedule (QoS1/2 publishes, 2..6 connections, session present/absent per reconnect) the run is repeated with a transport failure forced at each recorded step (quick: 40 sampled steps per schedule, thorough: every step); non-trivial = a QoS>0 PUBLISH reached the wire; distinct = distinct event-kind sequences", assumptions: common_assume },
         "C05" => Plan { id: "C05", level: "exploration", cases_quick: 30_000, cases_thorough: 1_000_000, enumerate: None, extra_families: vec![], nontrivial: vec!["c05.inbound_publishes"], gates: vec![("c05.inbound_publishes", 5000), ("c05.acks_seen", 3000), ("c05.qos2_duplicates_suppressed", 50), ("c05.inbound_pubrels", 500)], wrap_runs: (0, 0),
@@ -206,7 +208,11 @@ fn family_for(plan: &Plan, idx: u64) -> &'static str {
 }
 
 pub fn run_engine_check(id: &str, tier: &str, seed: u64, budget_s: u64) -> i32 {
-    let plan = match plan(id) { Some(p) => p, None => { println!("INCONCLUSIVE property={} reason=no-plan", id); return 3; } };
+    match engine_report(id, tier, seed, budget_s) { Some(r) => r.finish(), None => { println!("INCONCLUSIVE property={} reason=no-plan", id); 3 } }
+}
+
+pub fn engine_report(id: &str, tier: &str, seed: u64, budget_s: u64) -> Option<Report> {
+    let plan = plan(id)?;
     let quick = tier != "thorough";
     let start = Instant::now();
     let threads = std::thread::available_parallelism().map(|n| n.get()).unwrap_or(8).min(16);
@@ -321,7 +327,7 @@ pub fn run_engine_check(id: &str, tier: &str, seed: u64, budget_s: u64) -> i32 {
         if let Some(f) = rep.found.last_mut() { f.occurrences = occ; }
     }
     rep.wall_s = start.elapsed().as_secs_f64();
-    rep.finish()
+    Some(rep)
 }
 
 /// Re-executes the event list stored in a replay file and prints what the monitors say.
